@@ -17,6 +17,29 @@ C["C03"]=dict(cat="model_checking", tech="stateless model checking: deviation-bo
 C["C06"]=dict(cat="model_checking", tech="explicit-state BFS over operation histories of the real ReplayCache against a reference model, plus replay scenarios on the real server under the controlled scheduler",
  text="Part A: explicit-state breadth-first search (canonical-state de-duplication, successor by replay on a fresh object) over all histories of IsDuplicate/clock-advance operations up to depth 6 (quick) / 9 (thorough) for capacities 1..3, each transition compared with a reference model of the statement. Part B: traffic recorded from a genuine client in the same execution is replayed byte-exactly against the real server (whole TCP stream, every segment-boundary prefix, first segment; UDP datagrams once and twice from another address, before and after rotation of a deliberately small cache, before/after the original session ended and was forgotten), oracle: no byte/datagram toward the replayer, no extra Accept, genuine traffic intact.",
  note=TRUST+" FNV-64 collisions between distinct items are outside the model. A genuine defect found by this check was repaired (fix: commit in /repo, see known_findings.jsonl).", ref="DESIGN.md §6 C06")
+
+SEQ="Trusted: the Go compiler and the harness; for units that run the real stack, the instrumenter, scheduler and in-memory network as for C01. Alphabets and bounds as stated in the evidence file."
+C["C08"]=dict(cat="exploration", tech="bounded-exhaustive enumeration of (instant, skew) pairs through the real cipher/metadata code under a virtual clock + explicit-state BFS over key-cache lookup histories",
+ text="Every client instant on a 1 s grid over 360 s refined to +-1 ns/+-1 ms around each multiple of 60 s, times every skew in [-60 s,+60 s]: the real cipher seals, the real server-side decrypt paths open, both metadata layouts unmarshal; all offsets beyond the rejection bounds are refused; BFS over key-cache histories with non-monotonic instants and extreme jitter draws compares returned keys with a fresh derivation; real handshakes with a skewed client clock on both transports.",
+ note=SEQ, ref="DESIGN.md §6 C08")
+C["C09"]=dict(cat="exploration", tech="differential checking against an independent reference codec (refwire, written from docs/protocol.md) on enumerated executions of the real stack, both as wire monitor and as third-party peer",
+ text="Direction 1: every byte/datagram the real endpoints emit in the TCP and UDP scenario matrices (patterns incl. all low-entropy modes, sizes, chunkings, single faults, periodic loss) is decoded by refwire and the reassembled payload equals the application data. Direction 2: refwire acts as third-party client against the real server and as third-party server against the real client on both transports (open payloads 0/1/10/1024, fragment-limit writes, padding 0/1/255 in each position, four low-entropy modes x 31 rotations x both polarities, carrying nonces); the real endpoint must accept, deliver exactly the bytes, answer decodably and understand the acknowledgements.",
+ note="refwire is my reading of docs/protocol.md; golang.org/x/crypto (PBKDF2, XChaCha20-Poly1305) is trusted. "+TRUST, ref="DESIGN.md §6 C09")
+C["C13"]=dict(cat="model_checking", tech="stateless model checking of fault and goroutine schedules (the C02 exploration) with a wire monitor built on the independent decoder",
+ text="On every execution of the C02 exploration a monitor compares, at each emitted datagram, the cumulative ack with the exact set of sequence numbers the in-memory network had handed to the sender, compares all transmissions of each (session, direction, seq), and checks consecutive numbering of first transmissions.",
+ note=TRUST+" Underlay-originated close requests for unknown sessions are exempt (see evidence assumptions).", ref="DESIGN.md §6 C13")
+C["C14"]=dict(cat="exploration", tech="bounded-exhaustive configuration sweep on the real stack with a tap-level monitor (datagram length vs MTU, refwire-decoded length fields)",
+ text="Sweep MTU x padding maxima x low-entropy mode x write sizes x handshake mode with padding draws forced to their maximum (and seeded), one forced periodic drop so that retransmissions appear; plus the C02 single-fault and periodic-loss executions; every datagram is measured against the MTU and every length field against the documented limits.",
+ note=TRUST, ref="DESIGN.md §6 C14")
+C["C16"]=dict(cat="exploration", tech="bounded-exhaustive enumeration of TrafficPattern messages through the real NewConfig/Validate/Encode/Decode and cipher code",
+ text="All 8192 subsets of the 13 optional fields with rotated boundary values, all pairs of fields x all boundary combinations x seeds x unlockAll, and 200 (quick) / 20000 (thorough) seeds x every single explicit value: effective pattern validates, explicit fields unchanged, construction stable, encoding lossless, the real cipher's nonces obey the effective pattern. (Wire-level part B is covered by the C09/C14 monitors for padding and low entropy; see level note.)",
+ note=SEQ+" A genuine defect found by this check was repaired (fix: commit, see known_findings.jsonl).", ref="DESIGN.md §6 C16")
+C["C17"]=dict(cat="exploration", tech="exhaustive enumeration of finite input spaces of the real codec and of both PDEP/PEXT implementations against a bit-by-bit reference",
+ text="All (x,mask) pairs in a 14-bit (quick) / 16-bit (thorough) lane at 4 positions and all 1-/2-bit masks: generic vs BMI2 vs reference; single-chunk codec for every half-mask of the mode's weight in a window (quick) / all 32-bit half-masks (thorough); multi-chunk bodies x 31 rotations; every 1- and 2-bit corruption and metadata perturbation of short encodings: accepted implies canonical.",
+ note=SEQ, ref="DESIGN.md §6 C17")
+C["C20"]=dict(cat="exploration", tech="bounded-exhaustive enumeration of structured configurations, patches and short/mutated malformed inputs through the real appctl code",
+ text="All single and pairwise mutations of 17 client and 11 server configuration fields x both file formats: validate => store/load/start without panic, equivalence after store->load and export->import, no plaintext password in stored server bytes; every patch of <=2 top-level fields changes only what it sets; every string of length <=7 over a 13-letter alphabet starting with 'm', and every truncation/substitution of valid links and JSON documents, yields an error and never a panic.",
+ note=SEQ+" A genuine defect found by this check was repaired (fix: commit, see known_findings.jsonl).", ref="DESIGN.md §6 C20")
 checks=[]
 for pid,c in sorted(C.items()):
     checks.append({"property_id":pid,"quick_cmd":"./check.sh %s quick"%pid,"thorough_cmd":"./check.sh %s thorough"%pid,
